@@ -123,26 +123,19 @@ func (p *parser) declare(name string) int {
 	return slot
 }
 
-// reserve allocates a slot without making the name visible yet.
-func (p *parser) reserve() int {
-	slot := p.fs.proto.nslots
-	p.fs.proto.nslots++
-	return slot
-}
-
-func (p *parser) activate(name string, slot int) {
-	if len(p.fs.actives) >= 200 {
-		p.fail("too many local variables")
-	}
-	p.fs.actives = append(p.fs.actives, localVar{name: name, slot: slot})
-}
-
 func (p *parser) openScope() int   { return len(p.fs.actives) }
 func (p *parser) closeScope(m int) { p.fs.actives = p.fs.actives[:m] }
+
+// implicitArgSlot marks the implicit "arg" local of vararg functions, whose contents depend on
+// compile-time details of the reference implementation; any use of it is unsupported.
+const implicitArgSlot = -1
 
 func findLocal(fs *funcState, name string) (int, bool) {
 	for i := len(fs.actives) - 1; i >= 0; i-- {
 		if fs.actives[i].name == name {
+			if fs.actives[i].slot == implicitArgSlot {
+				unsupported("the implicit 'arg' table of vararg functions")
+			}
 			return fs.actives[i].slot, true
 		}
 	}
@@ -438,6 +431,8 @@ func (p *parser) funcBody(method bool, line int) *funcProto {
 		for {
 			if p.acceptOp("...") {
 				fs.proto.isVararg = true
+				// Lua 5.1 (LUA_COMPAT_VARARG) declares an implicit local "arg" here.
+				fs.actives = append(fs.actives, localVar{name: "arg", slot: implicitArgSlot})
 				break
 			}
 			p.declare(p.expectName())
